@@ -19,12 +19,15 @@ GNext ==
           /\ slot[<<o, i>>] # 0 /\ PutR(o, i, p, j) /\ Log([op |-> "putr", o |-> o, i |-> i, p |-> p, j |-> j, mode |-> m])
   \/ /\ More /\ \E o \in Pick(Objs), i \in Pick(Slots), j \in Pick(Slots) : NewFp(o, i, j) /\ Log([op |-> "fp", o |-> o, i |-> i, j |-> j])
   \/ /\ More /\ \E o \in Pick(Objs), i \in Pick(Slots) : slot[<<o, i>>] # 0 /\ CallOut(o, i) /\ Log([op |-> "callout", o |-> o, i |-> i])
-  \/ /\ More /\ \E o \in Pick(Objs), k \in Pick({1, 2}) : RmCallOut(o, k) /\ Log([op |-> "rmco", o |-> o])
+  \/ /\ More /\ \E o \in Pick(Objs), k \in Pick({1, 2}), by \in Pick({"name", "handle"}) : RmCallOut(o, k) /\ Log([op |-> "rmco", o |-> o, by |-> by])
+  \/ /\ More /\ \E o \in Pick(Objs), i \in Pick(Slots), f \in Pick({"name", "fp"}) : InputTo(o, i) /\ Log([op |-> "inp", o |-> o, i |-> i, form |-> f])
+  \/ /\ More /\ \E r \in Pick({"ok", "err"}) : InputLine /\ Log([op |-> "line", o |-> inp[1], res |-> r])
+  \/ /\ More /\ inp # <<>> /\ Drop /\ Log([op |-> "drop", o |-> inp[1]])
   \/ /\ More /\ \E o \in Pick(Objs), i \in Pick(Slots), e \in Pick(1..6) : slot[<<o, i>>] # 0 /\ Err(o, i) /\ Log([op |-> "err", o |-> o, i |-> i, kind |-> e])
   \/ /\ More /\ \E o \in Pick(Objs) : Dest(o) /\ Log([op |-> "dest", o |-> o])
   \/ /\ ~More /\ UNCHANGED gvars
 GInit == Init /\ hist = <<>>
 GSpec == GInit /\ [][GNext]_gvars
-Interesting == \E k \in 1..Len(hist) : hist[k].op \in {"copy", "put", "putr", "fp", "callout"}
+Interesting == \E k \in 1..Len(hist) : hist[k].op \in {"copy", "put", "putr", "fp", "callout", "inp"}
 Emit == (Len(hist) = MaxLen /\ Interesting) => PrintT(<<"@@B", ToJson(hist)>>)
 =============================================================================
